@@ -85,6 +85,7 @@ def extract_fn(u):
     n = f.replace_all(r"\.captures_iter\s*\(\s*(\w+)\s*\)\s*\.next\(\)", r".captures(\1)", "R9", regex=True, min_count=1)
     # `capture[1]` -> group accessor (Index panics when the group did not participate)
     f.replace_all(r"\bcapture\[(\d+)\]\s*\.parse::<u32>\(\)", r"str_parse_u32(capture.group_str(\1))", "R9", regex=True, min_count=1)
+    rules.r9_str_len(f, ["log_literal"])
     f.ensures.append(("C12.extract", "r == extract_spec(log_literal.spec_bytes())"))
     f.at_start(" proof { encode_utf8_decode_utf8(log_literal@); axiom_token_pattern(log_literal@); }")
     return f, statics
@@ -121,6 +122,7 @@ def build():
             expr = "strref_%s(%s, %s)" % (h.group(4), expr, h.group(5))
         f.replace(h.start(), h.end(), expr, "R9", "str method chain %s%s -> shim calls" % (h.group(2).strip(), (h.group(3) or "").strip()))
     rules.r16_map_or(f)
+    rules.r9_str_len(f, ["line", "code", "directive_name"])      # str::len is accepted by Verus but unspecified: give it its meaning
     rules.r9_method_to_fn(f, "trim", "str_trim")
     rules.r9_method_to_fn(f, "is_empty", "str_is_empty")
     f.replace_all(r"str_trim\(&line\)", "str_trim(line)", "R9", regex=False) if False else None
